@@ -6,7 +6,10 @@
 (*         (`type/subtype; charset=label`) | "charset_nosp" (no blank      *)
 (*         after the semicolon) | "unknown" (charset=label the decoder     *)
 (*         library does not know)                                          *)
-(*   req, sess  a default charset is configured on the request / session   *)
+(*   req   "unset" | "some" | "none": the request did not touch the        *)
+(*         default charset / set one / explicitly cleared it (which        *)
+(*         overrides whatever the session has, as every request setting)   *)
+(*   sess  a default charset is configured on the session                  *)
 (*   op    "text" | "text_reader" | "json" (header-driven),                *)
 (*         "text_with" (explicit charset), "text_utf8"                     *)
 (* The result names the SOURCE of the charset; the harness compares the    *)
@@ -22,8 +25,8 @@ Source(ct, req, sess, op) ==
   IF op = "text_with" THEN "explicit"
   ELSE IF op = "text_utf8" THEN "utf8"
   ELSE IF ct \in {"charset", "charset_nosp"} THEN "header"
-  ELSE IF req THEN "request-default"
-  ELSE IF sess THEN "session-default"
+  ELSE IF req = "some" THEN "request-default"
+  ELSE IF req = "unset" /\ sess THEN "session-default"
   ELSE "windows-1252"
 
 \* guards over one observed text read e = [ct, req, sess, op, res, agree, streamingSame]
@@ -36,9 +39,11 @@ CharsetGuard(g, e) == CASE g = "G18_total" -> G18_total(e) [] g = "G18_choice" -
 CharsetViolations(e) == {g \in CharsetGuards : ~CharsetGuard(g, e)}
 
 \* meta-properties of the table
-ExplicitIgnoresHeader == \A ct \in CtShapes, r \in BOOLEAN, s \in BOOLEAN :
+ReqVals == {"unset", "some", "none"}
+ExplicitIgnoresHeader == \A ct \in CtShapes, r \in ReqVals, s \in BOOLEAN :
    Source(ct, r, s, "text_with") = "explicit" /\ Source(ct, r, s, "text_utf8") = "utf8"
-HeaderFirst == \A r \in BOOLEAN, s \in BOOLEAN : Source("charset", r, s, "text") = "header"
-RequestOverSession == \A ct \in {"absent", "noparam", "unknown"} : Source(ct, TRUE, TRUE, "text") = "request-default"
-FallbackLast == \A ct \in {"absent", "noparam", "unknown"} : Source(ct, FALSE, FALSE, "text") = "windows-1252"
+HeaderFirst == \A r \in ReqVals, s \in BOOLEAN : Source("charset", r, s, "text") = "header"
+RequestOverSession == \A ct \in {"absent", "noparam", "unknown"} :
+   Source(ct, "some", TRUE, "text") = "request-default" /\ Source(ct, "none", TRUE, "text") = "windows-1252"
+FallbackLast == \A ct \in {"absent", "noparam", "unknown"} : Source(ct, "unset", FALSE, "text") = "windows-1252"
 =============================================================================
